@@ -102,7 +102,7 @@ Fixpoint xattrs_ok (n : node) {struct n} : bool :=
   match n with Node _ s _ kids => keys_sorted (st_xattrs s) && forallb xattrs_ok kids end.
 
 Definition err_class (e : option cerr) : N :=
-  match e with None => 0 | Some EDirOverNondir => 1 | Some ENondirOverDir => 2 | Some ENotDir => 3 | Some ENoParent => 4 end.
+  match e with None => 0 | Some EDirOverNondir => 1 | Some ENondirOverDir => 2 | Some ENoParent => 4 end.
 
 Record c16case := {
   k_L : bytes;            (* landing target, relative to the destination root *)
@@ -200,11 +200,6 @@ Definition mk_cases (sv dv : list node) (mode : N) (name : bytes) : option (list
   if N.eqb mode 2 then omap (fun n => mk_case sv dv 1 (node_name n)) sv
   else match mk_case sv dv mode name with Some k => Some [k] | None => None end.
 
-(* known finding: copier.copy lstats the destination path of EVERY visited source entry; below an
-   unselected source directory whose name is taken by a non-directory in the destination that
-   fails with ENOTDIR and aborts the copy although nothing there is selected *)
-Definition s_stat_unselected : bytes := [115; 116; 97; 116; 45; 98; 101; 108; 111; 119; 45; 117; 110; 115; 101; 108; 101; 99; 116; 101; 100; 45; 110; 111; 110; 100; 105; 114].   (* "stat-below-unselected-nondir" *)
-
 Definition run_1601 (input impl : sx) : sx :=
   match input with
   | SL [sv; dv; inc; exc; SN mode; SB name] =>
@@ -232,24 +227,20 @@ Definition run_1601 (input impl : sx) : sx :=
               let impl' := SL [SN 0; iinc; iexc; SL [SN cls; if N.eqb cls 0 then csnap else SL []]] in
               let mr := run_all (model_run pm c) ks in
               let model := SL [SN 0; enc_side (c_inc c); enc_side (c_exc c); outcome dst0 mr] in
-              (* the specification: success iff no materialised entry meets the wrong type; on
-                 success the destination is exactly what spec_ent says (error classes are not
-                 part of the specification) *)
+              (* the specification: the copy fails iff a materialised entry meets the other kind
+                 (directory / non-directory) in the destination, with the error of the first such
+                 entry in walk order; on success the destination is exactly what spec_ent says *)
               let spec_ok (r : list (c16case * dfs) * option cerr) : bool :=
                 match snd r with
                 | None => N.eqb cls 0 && sx_eqb (listing dst0 (fst r)) csnap
-                | Some _ => N.eqb cls 1 || N.eqb cls 2 || N.eqb cls 3 || N.eqb cls 4
+                | Some e => N.eqb cls (err_class (Some e))
                 end in
               let r_naive := run_all (spec_run (keep_naive pm c)) ks in
               if spec_ok r_naive then verdict model impl' true (SL [])
               else
                 let r_incr := run_all (spec_run (keep_incr pm c)) ks in
                 let s :=
-                  if any_late_shadow pm c ks && spec_ok r_incr then [sig s_late_shadow]
-                  else if match snd mr with Some ENotDir => true | _ => false end && sx_eqb model impl'
-                          && match snd r_incr with None => true | Some _ => false end
-                  then [sig s_stat_unselected]
-                  else [] in
+                  if any_late_shadow pm c ks && spec_ok r_incr then [sig s_late_shadow] else [] in
                 verdict model impl' false (SL (s ++ [outcome dst0 r_naive]))
             end
           | _, _ => v_malformed
